@@ -5,7 +5,8 @@ from collections import deque
 from . import dsched, explore
 
 FOLLOW = {3: 5, 4: 6}
-TASKS = [1, 2, 3, 4, 5, 6]
+TASKS = [1, 2, 3, 4, 5, 6, 7, 8]
+WAITS = {7: 8}      # task 7 returns only once task 8 has run
 RACY = ("threads", "stop_count", "active_count", "queue")
 
 
@@ -57,7 +58,11 @@ class StubTask:
 
     def service(self):
         S = dsched.S
-        S.vo("task", "service")
+        dep = WAITS.get(self.tid)
+        if dep:
+            S.vo("task", "service", enabled=lambda: any(e["k"] == "ran" and e["task"] == dep for e in self.ctx.events))
+        else:
+            S.vo("task", "service")
         self.ctx.ev({"k": "ran", "task": self.tid})
         f = FOLLOW.get(self.tid)
         if f:
